@@ -72,6 +72,14 @@ func c15Spec(mode modeSpec, th uint64, reenter bool, kills []killRule, pr bool, 
 	}
 	spec := &xferSpec{A: a, B: b, Streams: []streamSpec{s1, s2}, Faults: faultSet{Drop: true, Dup: true, Late: true, Swap: true}, Interleave: true, Kill: kills}
 	if block {
+		// more data than the peer's buffer holds: once the window is closed a write waits, and
+		// gives up at its deadline
+		var big []msgSpec
+		for i := 0; i < 5; i++ {
+			big = append(big, msgSpec{Size: 400 + i, PPI: 53})
+		}
+		spec.Streams[0].Msgs = big
+		spec.Streams[1].Msgs = big[:3]
 		spec.WriteTimeout = 700 * time.Millisecond
 		spec.PauseReader = 2 * time.Second
 	}
@@ -132,6 +140,7 @@ func propC15(j *Job) {
 		{"pr-kill", 150, true, []killRule{{SID: 1, Msg: 1, Frag: -1, N: 1}}, true, false, 1},
 		{"pr-kill-last", 0, false, []killRule{{SID: 1, Msg: 3, Frag: 1, N: 1}}, true, false, 1},
 		{"block-deadline", 150, false, nil, false, true, 1},
+		{"block-deadline-unordered", 150, false, nil, false, true, 1},
 	}
 	for mi, mode := range modes {
 		for vi, v := range vs {
@@ -139,6 +148,9 @@ func propC15(j *Job) {
 				continue
 			}
 			spec, states := c15Spec(mode, v.th, v.reenter, v.kills, v.pr, v.block)
+			if v.name == "block-deadline-unordered" {
+				spec.Streams[0].Unordered = true
+			}
 			k := v.k
 			if j.Thorough() {
 				k = 2
@@ -162,7 +174,11 @@ func propC15(j *Job) {
 						if got != want {
 							m.viol = append(m.viol, Violation{Oracle: "buffered.stream", Msg: fmt.Sprintf("stream %d: BufferedAmount=%d but %d user bytes are pending or unacknowledged (at %v)", bs.s.streamIdentifier, got, want, m.S.Now())})
 						}
-						if uint64(got) > bs.threshold {
+						// while a (blocking) write is in progress its bytes are counted provisionally and
+						// taken back if it fails: crossings in such an interval are not judged
+						if m.inWrite[bs.s] > 0 {
+							bs.armed = false
+						} else if uint64(got) > bs.threshold {
 							if !bs.armed {
 								bs.armed, bs.armedSeen = true, bs.callbacks
 							}
@@ -227,6 +243,9 @@ func propC15(j *Job) {
 			}
 		}
 	}
+	for _, mode := range modes {
+		j.Explore(fmt.Sprintf("B/%s/release-after-peer-reset", mode.Name), peerResetReleaseScenario(withBase(mode.A, 228, 9, 4000), withBase(mode.B, 228, 99, 4000)), Budget{K: 0}, nil)
+	}
 	// the threshold is crossed while the stream is closing (Close called with data outstanding)
 	for _, mode := range modes {
 		for _, th := range []uint64{0, 100} {
@@ -240,5 +259,76 @@ func propC15(j *Job) {
 		spec := &resetSpec{A: withBase(mode.A, 100, 9, 4000), B: withBase(mode.B, 100, 99, 4000), SIDs: []uint16{5}, Sizes: []int{9}, Cycles: 1,
 			Faults: faultSet{Drop: true}, BackSizes: []int{12}, CheckBuffered: true}
 		j.Explore("B/after-inbound-reset", resetScenario(spec), Budget{K: 0}, nil)
+	}
+}
+
+// peerResetReleaseScenario: two streams of A have data in flight whose acknowledgements are
+// delayed; the peer resets its direction of the lower-numbered stream, which unregisters that
+// stream at A.  The SACK that finally arrives covers chunks of both streams: the registered
+// stream must get its bytes released whatever happens to the unregistered one (F14).
+func peerResetReleaseScenario(a, b epCfg) *Scenario {
+	return &Scenario{
+		Name:    "release-after-peer-reset",
+		Horizon: 60 * time.Second,
+		Setup: func(m *Sim) {
+			m.W.killFn = func(p *wpkt) bool {
+				if p.from != 1 || p.dec == nil || m.S.Now() > 1500*time.Millisecond {
+					return false
+				}
+				for _, c := range p.dec.Chunks {
+					if c.Typ == wSACK {
+						return true
+					}
+				}
+				return false
+			}
+		},
+		Body: func(m *Sim) {
+			if !m.Connect(a, b) {
+				m.Failf("connect", "handshake failed")
+				m.closeFailedTransports()
+				m.CloseBoth()
+				return
+			}
+			s1, _ := m.As[0].OpenStream(1, PayloadTypeWebRTCBinary)
+			s2, _ := m.As[0].OpenStream(2, PayloadTypeWebRTCBinary)
+			sb1, _ := m.As[1].OpenStream(1, PayloadTypeWebRTCBinary)
+			sb2, _ := m.As[1].OpenStream(2, PayloadTypeWebRTCBinary)
+			m.streamsSeen = append(m.streamsSeen, s1, s2, sb1, sb2)
+			cb := 0
+			s2.SetBufferedAmountLowThreshold(10)
+			s2.OnBufferedAmountLow(func() { cb++ })
+			for _, s := range []*Stream{sb1, sb2} {
+				s := s
+				m.Go(fmt.Sprintf("rd%d", s.streamIdentifier), func() {
+					buf := make([]byte, 2000)
+					for {
+						if _, _, err := s.ReadSCTP(buf); err != nil {
+							return
+						}
+					}
+				})
+			}
+			_, _ = s1.WriteSCTP(payload(1, 0, 300), PayloadTypeWebRTCBinary)
+			_, _ = s2.WriteSCTP(payload(2, 0, 300), PayloadTypeWebRTCBinary)
+			m.Sleep(100 * time.Millisecond)
+			_ = sb1.Close() // the peer resets its sending direction of stream 1
+			ok := m.WaitUntil("drained", 30*time.Second, func() bool { return drained(m.As[0]) })
+			if !ok {
+				m.Failf("stall", "A never drained: buffered=%d", bufAmt(m.As[0]))
+			} else {
+				if _, in := m.As[0].streams[1]; in {
+					m.Observe("stream 1 still registered at A")
+				}
+				if b2 := s2.BufferedAmount(); b2 != 0 {
+					m.Failf("buffered.zero", "stream 2: BufferedAmount=%d although everything was acknowledged (a SACK that also covered chunks of the reset stream 1 did not release it)", b2)
+				} else if cb == 0 {
+					m.Failf("callback.missing", "stream 2: the amount fell from 300 to 0 across the threshold 10 without a callback")
+				}
+			}
+			m.Observe("cb=%d", cb)
+			m.CloseBoth()
+		},
+		Final: func(m *Sim, x *Exec) { generalVerdicts(m, x, false) },
 	}
 }
